@@ -617,6 +617,25 @@ def rule_mode_independence(rep: Report, repo: Repo, rule: str) -> None:
     rep.floor(rule, 6, "processing decisions in the walk")
 
 
+def rule_index_before_pages(rep: Report, repo: Repo, rule: str) -> None:
+    rep.rule(rule, "in the walk body the directory index is written before the pages of that directory are produced: the page of a "
+                   "module called index.cmake is the last writer of <dir>/index.rst, as it is the page stdout mode prints")
+    dm = DocumentModel(repo)
+    _tf, _td, page = emission_loops(dm)
+    if page is None:
+        raise AnalysisError("anchor vanished: page loop of document()")
+    i_page = dm.walk_body_index(page)
+    writes = [c for c in calls_in(dm.walk) if isinstance(c.func, ast.Attribute) and c.func.attr == "write_to_file"]
+    if not writes:
+        raise AnalysisError("anchor vanished: index write in the walk body")
+    for c in writes:
+        i_w = dm.walk_body_index(c)
+        rep.check(i_w is not None and i_page is not None and i_w < i_page, rule, f"{MOD}:document", norm(c)[:70] + " precedes the page loop",
+                  "the directory index is written after the pages: it overwrites the page of a module named index.cmake, which stdout "
+                  "mode still prints", witness="a directory containing index.cmake")
+    rep.floor(rule, 1, "index/page order")
+
+
 def rule_walk_root_absolute(rep: Report, repo: Repo, rule: str) -> None:
     rep.rule(rule, "os.walk starts at the absolute input path (the same string the exclusion test and relpath use), not at the "
                    "path as typed")
@@ -1000,12 +1019,26 @@ def rule_match_sites(rep: Report, repo: Repo, rule: str) -> None:
     # main: union of exclude filters
     mfn = dm.main
     ok = False
+    form = ""
     for n in walk_no_nested(mfn):
-        if isinstance(n, ast.Assign) and "exclude_filters" in norm(n.targets[0]) and "all_contents()" in norm(n.value) \
-                and "exclude_filters" in norm(n.value):
-            ok = True
+        if isinstance(n, ast.Assign) and isinstance(n.targets[0], ast.Attribute) and n.targets[0].attr == "exclude_filters":
+            v = resolve_locals(n.value, mfn)
+            txt = norm(v)
+            form = txt
+            if "all_contents()" in txt and "exclude_filters" in txt:
+                # the stored value is read once per input path: it has to be a list (or tuple), built from the patterns as given
+                outer = call_name(v) if isinstance(v, ast.Call) else ""
+                reiterable = outer in ("list", "tuple", "sorted") or isinstance(v, (ast.List, ast.Tuple, ast.ListComp))
+                inner_lazy = isinstance(v, ast.Call) and outer in ("list", "tuple") and False
+                transformed = any(isinstance(x, ast.Call) and call_name(x) in ("map", "os.path.expanduser", "os.path.normpath", "os.path.abspath",
+                                                                                 "os.path.expandvars", "str.strip", "set", "frozenset")
+                                  for x in ast.walk(v)) or any(isinstance(x, (ast.ListComp, ast.GeneratorExp)) and norm(x.elt) != norm(x.generators[0].target)
+                                                               for x in ast.walk(v))
+                ok = reiterable and not transformed
     rep.check(ok, rule, f"{MOD}:main", "settings_obj.input.exclude_filters = list(settings['input']['exclude_filters'].all_contents())",
-              "exclude patterns are not collected from all configuration sources", witness="-e a -s file-with-b")
+              f"the exclude patterns handed to document() are not the plain list of the patterns from all sources (`{form[:80]}`): a lazy "
+              f"iterator is exhausted by the first input path, a set loses the order gitignore negation depends on, a conversion makes "
+              f"the meaning of a pattern depend on its source", witness="cminx -e skip.cmake dirA dirB")
     # the command-line patterns enter the list as typed: the same pattern means the same from every source
     n_e = 0
     for c in calls_in(mfn):
